@@ -381,9 +381,11 @@ def main(ctx):
         ('d_chan3', None, dict(CH, MaxReq=3, MaxSlow=2), None, True),
         ('d_glob3', None, dict(GL, MaxReq=3, MaxSlow=2), None, False),
         ('d_both2', None, dict(MaxReq=2, MaxSlow=2), None, False),
-        ('d_free', None, dict(FREE, MaxReq=2, MaxSlow=1), None, True),
+        ('d_free', None, dict(FREE, **GL, MaxReq=3, MaxSlow=1), None, True),
         ('d_2chan', None, dict(CH, Chans='{"a", "b"}', MaxReq=2, MaxSlow=1,
-                               AllowCancel='FALSE'), None, False),
+                               AllowCancel='FALSE',
+                               AllowCut='FALSE' if quick else 'TRUE'),
+         None, False),
         ('live', None, dict(CH, MaxReq=2, MaxSlow=1), 'Terminates', False),
         ('live_g', None, dict(GL, MaxReq=2 if quick else 3, MaxSlow=1),
          'Terminates', False),
@@ -436,23 +438,23 @@ def main(ctx):
         ]
     emits = [
         # (name, setup, constants, replay budget)
-        ('e_both2', 'api', dict(MaxReq=2, MaxSlow=1), 600),
+        ('e_both2', 'api', dict(MaxReq=2, MaxSlow=1), 500),
         ('e_chan3', 'api', dict(CH, MaxReq=3, MaxSlow=1, AllowCut='FALSE',
-                                AllowCancel='FALSE'), 450),
-        ('e_glob3', 'api', dict(GL, MaxReq=3, MaxSlow=1), 450),
-        ('e_free2', 'raw', dict(FREE, MaxReq=2, MaxSlow=1), 450),
+                                AllowCancel='FALSE'), 400),
+        ('e_glob3', 'api', dict(GL, MaxReq=3, MaxSlow=1), 400),
+        ('e_free2', 'raw', dict(FREE, MaxReq=2, MaxSlow=1), 350),
         ('e_free3', 'raw', dict(FREE, **CH, MaxReq=3, MaxSlow=1,
-                                AllowCut='FALSE', WantSet='{TRUE}'), 300),
+                                AllowCut='FALSE', WantSet='{TRUE}'), 250),
     ]
     k = 1 if quick else 8
     DEEP = dict(Chans='{"a", "b"}', MaxReq=5, MaxSlow=2)
     sims = [
         # (name, setup, number of random behaviours, constants, budget)
-        ('s_api', 'api', 400 * k, dict(DEEP, AllowCut='FALSE'), 250 * k),
-        ('s_api_c', 'api', 250 * k, dict(DEEP), 120 * k),
+        ('s_api', 'api', 400 * k, dict(DEEP, AllowCut='FALSE'), 200 * k),
+        ('s_api_c', 'api', 250 * k, dict(DEEP), 100 * k),
         ('s_raw', 'raw', 400 * k, dict(DEEP, **FREE, AllowCut='FALSE'),
-         250 * k),
-        ('s_raw_c', 'raw', 250 * k, dict(DEEP, **FREE), 120 * k),
+         200 * k),
+        ('s_raw_c', 'raw', 250 * k, dict(DEEP, **FREE), 100 * k),
     ]
 
     def one_check(item):
@@ -611,7 +613,7 @@ def main(ctx):
         selftest(ctx, drv, pool, rnd)
         marks.append(f'selftest@{time.time() - t_start:.0f}s')
         ctx.notes.append('timeline: ' + ' '.join(marks))
-        ctx.require(total >= (2500 if quick else 15000),
+        ctx.require(total >= (2200 if quick else 13000),
                     f'only {total} behaviours were replayed')
         for setup in ('api', 'raw'):
             for tag in ('close', 'cut', 'done') + \
